@@ -3913,6 +3913,128 @@ def spec_inline_arms_paired(ctx, make_exe):
             raise Inconclusive("no successful path for %s" % kind)
     return {"function": f.name, "paths": total}
 
+# ----------------------------------------------------------------------------
+# SPEC: an unknown at-rule is skipped up to its ';' or the end of its own {}-block, whatever brackets its prelude holds
+# ----------------------------------------------------------------------------
+
+def spec_at_rule_skip(ctx, make_exe):
+    import summaries
+    orig = summaries.summarize
+    f = the(ctx.find(r"^skip_to_end_of_statement$"), "css::parser::skip_to_end_of_statement")
+    names = ctx.enums.get("parser::Token") or ctx.enums.get("Token")
+    if not names:
+        raise Inconclusive("Token enum not recovered")
+    KINDS = ["Ident", "OpenRound", "CloseRound", "OpenSquare", "CloseSquare", "OpenBrace", "CloseBrace", "Semicolon"]
+    idx = {k: names.index(k) for k in KINDS}
+    N = 4 if ctx.tier != "thorough" else 5
+    exe = make_exe(loop_bound=N + 3)
+    st = State()
+    toks = [VOpaque("css::parser::Token<'_>", "tok%d" % i) for i in range(N)]
+    ds = [exe.discriminant(t).e for t in toks]
+    for d in ds:
+        st.pc.append(z3.Or(*[d == idx[k] for k in KINDS]))
+
+    def pos_of(exe_, st_, v):
+        while isinstance(v, VRef):
+            v = exe_.deref(st_, v)
+        if isinstance(v, VAgg) and v.path == "Pos":
+            return v.fields[0]
+        if isinstance(v, VOpaque) and v.name == "input":
+            return 0
+        return None
+
+    def tokval(exe_, st_, v):
+        while isinstance(v, VRef):
+            v = exe_.deref(st_, v)
+        return v
+
+    def summ(exe_, st_, f_, bb_, callee, args, dest_ty):
+        c = callee.strip()
+        if re.search(r"^parse_token$", c):
+            k = pos_of(exe_, st_, args[0])
+            if k is None:
+                return None
+            if k >= N:
+                return [(st_, VAgg("Result::Err", "Err", [VOpaque("nom::Err", "eof")]))]
+            return [(st_, VAgg("Result::Ok", "Ok", [VAgg("tuple", None, [VRef("val", VAgg("Pos", None, [k + 1])), toks[k]])]))]
+        if re.search(r"^<parser::Token<'_> as PartialEq>::eq$", c):
+            a, b = tokval(exe_, st_, args[0]), tokval(exe_, st_, args[1])
+            unit = lambda v: isinstance(v, VAgg) and v.variant in names and not v.fields
+            if unit(a) or unit(b):
+                return [(st_, VBool(exe_.discriminant(a).e == exe_.discriminant(b).e))]
+            return None
+        if re.search(r"^<Option<&parser::Token<'_>> as PartialEq>::eq$", c):
+            a, b = tokval(exe_, st_, args[0]), tokval(exe_, st_, args[1])
+            if isinstance(a, VAgg) and isinstance(b, VAgg) and a.variant in ("Some", "None") and b.variant in ("Some", "None"):
+                if a.variant != b.variant:
+                    return [(st_, VBool(z3.BoolVal(False)))]
+                if a.variant == "None":
+                    return [(st_, VBool(z3.BoolVal(True)))]
+                x, y = tokval(exe_, st_, a.fields[0]), tokval(exe_, st_, b.fields[0])
+                unit = lambda v: isinstance(v, VAgg) and v.variant in names and not v.fields
+                if unit(x) or unit(y):
+                    return [(st_, VBool(exe_.discriminant(x).e == exe_.discriminant(y).e))]
+            return None
+        if re.search(r"^fail::<", c):
+            return [(st_, VAgg("Result::Err", "Err", [VOpaque("nom::Err", "fail")]))]
+        return orig(exe_, st_, f_, bb_, callee, args, dest_ty)
+    summaries.summarize = summ
+    try:
+        outs = exe.run(f.name, {1: VRef("val", VOpaque("str", "input"))}, st)
+    finally:
+        summaries.summarize = orig
+    if not outs:
+        raise Inconclusive("no path returned")
+    # reference: the statement ends after a ';' at depth 0, after the '}' that closes its own block, before a '}' at
+    # depth 0, at the end of the input; a closer that does not match the innermost opener is an error
+    FAIL = N + 10
+    closer = {"OpenRound": "CloseRound", "OpenSquare": "CloseSquare", "OpenBrace": "CloseBrace"}
+    memo = {}
+
+    def ref(pos, stack):
+        key = (pos, stack)
+        if key in memo:
+            return memo[key]
+        if pos >= N:
+            r = z3.IntVal(N)
+        else:
+            d = ds[pos]
+            branches = []
+            for k in KINDS:
+                if k == "Ident":
+                    v = ref(pos + 1, stack)
+                elif k in closer:
+                    v = ref(pos + 1, stack + (closer[k],))
+                elif k == "Semicolon":
+                    v = z3.IntVal(pos + 1) if not stack else ref(pos + 1, stack)
+                elif k == "CloseBrace" and not stack:
+                    v = z3.IntVal(pos)
+                else:   # a closing bracket
+                    if stack and stack[-1] == k:
+                        rest = stack[:-1]
+                        v = z3.IntVal(pos + 1) if (k == "CloseBrace" and not rest) else ref(pos + 1, rest)
+                    else:
+                        v = z3.IntVal(FAIL)
+                branches.append((d == idx[k], v))
+            r = branches[-1][1]
+            for cond, v in reversed(branches[:-1]):
+                r = z3.If(cond, v, r)
+        memo[key] = r
+        return r
+    want = ref(0, ())
+    for (s2, ret) in outs:
+        if isinstance(ret, VAgg) and ret.variant == "Ok":
+            tup = ret.fields[0]
+            k = pos_of(exe, s2, tup.fields[0]) if isinstance(tup, VAgg) and tup.fields else None
+            if k is None:
+                raise Inconclusive("end position not recovered")
+            post(exe, s2, want == z3.IntVal(k), f.name, "the skipped statement ends where its ';' or its own {}-block ends (position %d of %d tokens)" % (k, N))
+        elif isinstance(ret, VAgg) and ret.variant == "Err":
+            post(exe, s2, want == z3.IntVal(FAIL), f.name, "skipping fails only on a closing bracket that does not match")
+        else:
+            raise Inconclusive("result shape not recovered")
+    return {"function": f.name, "paths": len(outs), "tokens": N}
+
 
 ALL = [
     Spec("table_col_width", ["C06", "C02", "C01"], spec_table_col_width,
@@ -4116,6 +4238,11 @@ ALL = [
          assumptions=["renderer methods and PushedStyleInfo::{apply,unwind} are observed by name (their own contracts are t5_annotation_stack, style_unwind, link_footnotes)",
                       "tree_map_reduce renders the children between the arm and its closure"],
          replay=lambda fd, vals, info: {"harness": ("m_link_footnotes" if fd.msg.startswith("Link") else "m_inline_tags"), "values": [[0]]}),
+    Spec("at_rule_skip", ["C17"], spec_at_rule_skip,
+         functions=["css::parser::skip_to_end_of_statement"],
+         bounds="every sequence of 4 (thorough: 5) tokens over {identifier, ( ) [ ] { } ;}, then end of input",
+         assumptions=["parse_token delivers the scripted tokens; derived PartialEq on Token compares discriminants for bracket tokens"],
+         replay=lambda fd, vals, info: {"harness": "m_at_rule_skip", "values": [[0]]}),
     Spec("link_footnotes", ["C08"], spec_link_footnotes,
          functions=["TextRenderer::start_link", "TextRenderer::end_link"],
          bounds="0-2 links already recorded; footnote flag symbolic",
